@@ -643,6 +643,36 @@ pub fn run(tier: Tier) -> i32 {
             }
         }
     }
+    // names used on body lines of a macro are bound where the macro is called: re-binding between
+    // two calls, a call before the definition, an .undef after the call
+    let mut n_in_macro = 0u64;
+    {
+        let progs: Vec<(&str, &str, Option<&[u8]>)> = vec![
+            ("alias-rebound-between-calls", ".def a_q = r16\n.macro m_q\nldi a_q, 1\n.endm\nm_q\n.undef a_q\n.def a_q = r17\nm_q\n", Some(&[0x01, 0xe0, 0x11, 0xe0])),
+            ("alias-defined-after-the-call", ".macro m_q\nldi a_q, 1\n.endm\nm_q\n.def a_q = r16\n", None),
+            ("alias-undefined-after-the-call", ".def a_q = r16\n.macro m_q\nldi a_q, 1\n.endm\nm_q\n.undef a_q\nnop\n", Some(&[0x01, 0xe0, 0x00, 0x00])),
+            ("alias-undefined-before-the-second-call", ".def a_q = r16\n.macro m_q\nldi a_q, 1\n.endm\nm_q\n.undef a_q\nm_q\n", None),
+            ("variable-reassigned-between-calls", ".set v_q = 1\n.macro m_q\nldi r16, v_q\n.endm\nm_q\n.set v_q = 2\nm_q\n", Some(&[0x01, 0xe0, 0x02, 0xe0])),
+            ("variable-assigned-in-the-body", ".macro m_q\n.set v_q = @0\n.endm\nm_q 1\nldi r16, v_q\nm_q 2\nldi r16, v_q\n", Some(&[0x01, 0xe0, 0x02, 0xe0])),
+            ("variable-assigned-after-the-only-call", ".macro m_q\nldi r16, v_q\n.endm\nm_q\n.set v_q = 2\n", None),
+            ("alias-defined-in-the-body", ".macro m_q\n.def a_q = r17\n.endm\nm_q\nldi a_q, 1\n", Some(&[0x11, 0xe0])),
+            ("alias-passed-as-argument-and-rebound", ".def a_q = r16\n.macro m_q\nldi @0, 1\n.endm\nm_q a_q\n.undef a_q\n.def a_q = r17\nm_q a_q\n", Some(&[0x01, 0xe0, 0x11, 0xe0])),
+            ("label-in-the-body-used-outside", ".macro m_q\nin_l: nop\n.endm\nnop\nm_q\nrjmp in_l\n", Some(&[0x00, 0x00, 0x00, 0x00, 0xfe, 0xcf])),
+        ];
+        for (name, src, want) in progs.iter() {
+            let o = sut::build_str(src);
+            n_in_macro += 1;
+            let bad = match (want, &o) {
+                (Some(w), Outcome::Ok(b)) if &b.code[..] == *w => None,
+                (Some(w), other) => Some(format!("expected code {} but: {}", sut::hex(w), other.brief())),
+                (None, Outcome::Ok(b)) => Some(format!("must fail (the name is not bound where the macro is called) but builds to {}", sut::hex(&b.code))),
+                (None, _) => None,
+            };
+            if let Some(what) = bad {
+                rep.violation(&format!("C10/binding-inside-macro-bodies/program={}", name), || what, || json!({"kind": "build_str", "source": src, "expected": match want { Some(w) => json!({"result": "ok", "code": sut::hex(w)}), None => json!({"result": "err"}) }, "observed": o.to_json()}));
+            }
+        }
+    }
     rep.guard(n_alias_pairs.load(Ordering::Relaxed) > 5000, "fewer than 5000 alias/register pairs");
     rep.guard(ex.states > 200, "fewer than 200 model states");
     rep.guard(n_ok.load(Ordering::Relaxed) > 1000 && n_err.load(Ordering::Relaxed) > 1000, "need both Ok and Err outcomes");
@@ -654,6 +684,7 @@ pub fn run(tier: Tier) -> i32 {
     rep.assume("every defining and referring occurrence is spelled in an independently chosen letter case (lower, UPPER, Mixed)");
     let coverage = cov(json!({
         "alias_versus_register_pairs": n_alias_pairs.load(Ordering::Relaxed),
+        "binding_inside_macro_bodies_programs": n_in_macro,
         "names_inside_expressions_programs": n_undef_expr.load(Ordering::Relaxed),
         "states": ex.states,
         "transitions": ex.transitions,
